@@ -237,7 +237,8 @@ def big(tier, rng):
         yield dict(pb, planted=[L.lattice_answer(2, n, segs)], n_solutions=n - 1)
         pbt, segs_t = _transpose(pb, segs)
         yield dict(pbt, planted=[L.lattice_answer(n, 2, segs_t)], n_solutions=n - 1)
-    for n in ([19, 21, 23, 25] if th else [rng.choice([19, 21, 23, 25])]):
+    # (N = 7, 9, 11: the two-digit number starts with 1 and meets a one-digit number on the same board)
+    for n in ([7, 9, 11, 19, 21, 23, 25] if th else [rng.choice([7, 9, 11]), rng.choice([19, 21, 23, 25])]):
         pb = _grid(3, n, {(0, 0): ">" + str(2 * n - 4), (1, n - 1): "v2"})
         segs = {((0, 0), (0, 1))}
         for c in range(1, n - 1):
